@@ -1135,7 +1135,7 @@ def correspond(ctx, wb, d, spy, rep, dist):
             ctx.disagree("insert: the model rejects the request", rep, "BADINPUT", "")
             continue
         if mo[0] == "err":
-            if mo[1] in (90, 91):
+            if mo[1] in (190, 191):
                 dist["model_outside_language"] += 1
             else:
                 ctx.disagree("insert: the model reports an error, the implementation builds a context", rep, repr(mo), repr(child)[:600])
@@ -1354,12 +1354,12 @@ def binding_stream(ctx, n):
         rep = dict(fn="binding", defs=defs, args=repr(args), row=repr(row), data={k: [dict(r) for r in rows] for k, (c, rows) in g.data.items()})
         shown = f"declared {[(d['name'], d['type'], d['default']) for d in defs]}, arguments {args!r}, data row {row!r}"
         if (ref[0] == "ok") != (impl[0] == "ok"):
-            v.failing_input("insert-as-block", f"template arguments ({shown}): the reference binding gives {ref!r}, map_template_arguments_to_context {impl!r} "
+            v.failing_input("insert-as-block-arguments", f"template arguments ({shown}): the reference binding gives {ref!r}, map_template_arguments_to_context {impl!r} "
                             f"(call {dist['calls_on_one_parser']} on one ContentIndexParser)", rep)
             continue
         if ref[0] == "ok" and not same_binding(ref, impl):
             bad = next((k for k in ref[1] if k not in impl[1] or not typed_eq(ref[1][k], impl[1][k])), None)
-            v.failing_input("insert-as-block", f"template arguments ({shown}): `{bad}` must be bound to {ref[1].get(bad)!r} (the argument at its position; "
+            v.failing_input("insert-as-block-arguments", f"template arguments ({shown}): `{bad}` must be bound to {ref[1].get(bad)!r} (the argument at its position; "
                             f"the declared default only for the empty string), map_template_arguments_to_context binds {impl[1].get(bad)!r} "
                             f"(call {dist['calls_on_one_parser']} on one ContentIndexParser)", rep)
             continue
